@@ -485,4 +485,72 @@ theorem decode_encodeSigned {m : SignedMsg} (h : m.WF) : decodeSigned (encodeSig
   simp only [hq, e7]
   rw [if_neg (by simp [maxFullData]; omega)]
 
+/-! ### fidelity of the `Nat` representation: byte strings in, uint64 values out; encoders write bytes -/
+
+theorem leVal_lt (l : List Nat) (h : ∀ b ∈ l, b < 256) : leVal l < 256 ^ l.length := by
+  induction l with
+  | nil => simp [leVal]
+  | cons x r ih =>
+    have hx := h x (by simp)
+    have := ih (fun b hb => h b (by simp [hb]))
+    simp only [leVal, List.length_cons, Nat.pow_succ]
+    omega
+
+theorem readU64_lt {s : List Nat} {v : Nat} (hb : ∀ b ∈ s, b < 256) (h : readU64 s = .ok v) : v < 2 ^ 64 := by
+  unfold readU64 at h
+  split at h
+  · cases h
+  · injection h with h; subst h
+    have := leVal_lt (s.take 8) (fun b hb' => hb b (List.mem_of_mem_take hb'))
+    have hl : (s.take 8).length = 8 := by simp; omega
+    rw [hl] at this
+    simpa using this
+
+theorem slice_mem {b s : List Nat} {lo hi : Nat} (h : slice b lo hi = .ok s) : ∀ x ∈ s, x ∈ b := by
+  unfold slice at h
+  split at h
+  · injection h with h; subst h
+    intro x hx
+    exact List.mem_of_mem_drop (List.mem_of_mem_take hx)
+  · cases h
+
+/-- decoded integers are genuine uint64 values when the input is a byte string -/
+theorem decodeSSV_msgType_lt {buf : List Nat} {m : SSVMessage} (hb : ∀ b ∈ buf, b < 256) (h : decodeSSV buf = .ok m) :
+    m.msgType < 2 ^ 64 := by
+  unfold decodeSSV at h
+  simp only [bind_eq] at h
+  obtain ⟨_, h⟩ := ite_err_ok h
+  obtain ⟨b0, hb0, h⟩ := bind_ok h
+  obtain ⟨t, ht, h⟩ := bind_ok h
+  obtain ⟨_, _, h⟩ := bind_ok h
+  obtain ⟨_, _, h⟩ := bind_ok h
+  obtain ⟨_, _, h⟩ := bind_ok h
+  obtain ⟨_, h⟩ := ite_err_ok h
+  obtain ⟨_, h⟩ := ite_err_ok h
+  obtain ⟨_, _, h⟩ := bind_ok h
+  obtain ⟨_, h⟩ := ite_err_ok h
+  injection h with h; subst h
+  exact readU64_lt (fun b hb' => hb b (slice_mem hb0 b hb')) ht
+
+theorem leBytes_lt (k n : Nat) : ∀ b ∈ leBytes k n, b < 256 := by
+  induction k generalizing n with
+  | zero => simp [leBytes]
+  | succ k ih =>
+    intro b hb
+    simp only [leBytes, List.mem_cons] at hb
+    rcases hb with hb | hb
+    · subst hb; omega
+    · exact ih _ b hb
+
+/-- the encoders write genuine byte strings: every element of an encoded SSVMessage is < 256 when the payload bytes are -/
+theorem encodeSSV_bytes (m : SSVMessage) (hid : ∀ b ∈ m.msgID, b < 256) (hd : ∀ b ∈ m.data, b < 256) :
+    ∀ b ∈ encodeSSV m, b < 256 := by
+  intro b hb
+  simp only [encodeSSV, List.mem_append] at hb
+  rcases hb with ((hb | hb) | hb) | hb
+  · exact leBytes_lt _ _ b hb
+  · exact hid b hb
+  · exact leBytes_lt _ _ b hb
+  · exact hd b hb
+
 end Ssv.Ssz
